@@ -21,6 +21,7 @@ RULE = ("operation sequences of length 2..7 on the real default stack [bottom pr
         "is asked for while every ping has been answered, errors reach the caller, the stack stays usable. stream 'numbering': payload sizes around the frame limit pushed into the real noise + segment layers over a transport stand-in that numbers its "
         "messages, per send against Model/SendNumbering. stream 'sockreset': the real asyncore dispatcher (tracked locks) over a socket whose send fails with a "
         "disconnect errno. stream 'parked': a contact without a session whose key request fails, then later messages of that contact. distinct = distinct op sequence.")
+RULE += (" Keep-alive rounds also with a ping of the application's own and with a stray pong.")
 ASSUMPTIONS = ["operations are issued one at a time (by any thread): locks are threading.Lock without owner, so a held lock at quiescence means "
                "every later acquire blocks forever — detected deterministically by tracked locks instead of timeouts",
                "the sequence streams issue one operation at a time; concurrent receives (with a failure while another thread's frame is queued) are run "
@@ -157,9 +158,12 @@ def cases(chk):
     yield "keepalive", {"rounds": ["pong-callback-raises", "pong", "pong"]}
     yield "keepalive", {"rounds": ["pong", "pong-callback-raises", "pong-callback-raises", "pong"]}
     yield "keepalive", {"rounds": ["pong-undecodable", "pong"]}
+    yield "keepalive", {"rounds": ["app-ping", "pong", "pong"]}
+    yield "keepalive", {"rounds": ["pong", "stray-pong", "pong", "app-ping", "pong"]}
+    yield "keepalive", {"rounds": ["stray-pong", "app-ping", "pong-callback-raises", "pong"]}
     yield "keepalive", {"rounds": ["unanswered", "pong"]}
     for _ in range(chk.scale(12, 300)):
-        yield "keepalive", {"rounds": [r.choice(["pong", "pong", "pong-callback-raises", "pong-callback-raises", "pong-undecodable", "unanswered"]) for _i in range(r.randint(2, 6))]}
+        yield "keepalive", {"rounds": [r.choice(["pong", "pong", "pong-callback-raises", "pong-callback-raises", "pong-undecodable", "unanswered", "app-ping", "stray-pong"]) for _i in range(r.randint(2, 6))]}
     # the segment layer alone, with a top that raises for chosen frames: per call, the real layer against Model/Segments.lean's recvF
     yield "segfail", {"frames": ["07", "0809", "05"], "bad": [1], "cuts": [5], "extra": 1, "seed": 1}
     for _ in range(chk.scale(150, 4000)):
@@ -537,8 +541,16 @@ def run_keepalive(chk, case):
         ne, nb = len(bottom.events), len(bottom.sent)
         ping = PingIqProtocolEntity()
         try:
-            iq.waitPong(ping.getId())
-            iq.sendIq(ping)
+            if kind in ("app-ping", "stray-pong"):
+                # a ping of the APPLICATION's own (what a "/ping" command does), not entered into the keep-alive's record — or no ping at all: the
+                # answer that arrives is handled normally all the same
+                if kind == "app-ping":
+                    stack.send(ping)
+                else:
+                    stack.send(AvailablePresenceProtocolEntity())
+            else:
+                iq.waitPong(ping.getId())
+                iq.sendIq(ping)
         except tracked.BlockedForever as e:
             fails.append(oracle("C12:blocks-forever", "keep-alive rounds %s: round #%d never completes: %s" % (case["rounds"], ri, e)))
             break
@@ -573,7 +585,7 @@ def run_keepalive(chk, case):
         top.armed = False
         if kind == "pong-undecodable":
             unanswered.append(ping.getId())       # the answer never reached the iq layer
-        want = "ok" if kind == "pong" else "raised"
+        want = "ok" if kind in ("pong", "app-ping", "stray-pong") else "raised"
         held = [l.name for l in tracked.held_locks()]
         if res == "blocked":
             fails.append(oracle("C12:blocks-forever", "keep-alive rounds %s: the answer of round #%d is never handled: %s" % (case["rounds"], ri, err)))
